@@ -201,10 +201,17 @@ func RunSeq(sp *SeqSpec) (SeqCase, error) {
 			objs = append(objs, o)
 		}
 	}
-	n := len(refFps)
-	if n == 0 {
+	if len(refFps) == 0 {
 		return SeqCase{}, fmt.Errorf("%s: no call of the sequence completed", e.name)
 	}
+	_ = keep
+	finishSeq(&c, objs, refFps)
+	return c, nil
+}
+
+// finishSeq: the Go-side oracle (F1, F2) and the storage ids of the report.
+func finishSeq(c *SeqCase, objs []*seqObj, refFps []Footprint) {
+	n := len(refFps)
 	// drop objects born after the last completed call (cannot happen except through the cut above)
 	var live []*seqObj
 	for _, o := range objs {
@@ -294,8 +301,6 @@ func RunSeq(sp *SeqSpec) (SeqCase, error) {
 	for _, o := range objs {
 		c.Objs = append(c.Objs, *o)
 	}
-	_ = keep
-	return c, nil
 }
 
 // digest of a snapshot: length and 2 x 52 bits of the SHA-256 of the bit patterns
@@ -380,7 +385,7 @@ var seqDefs = []seqDef{
 	{id: 23, isBit: 4, optVals: []int{0, 1 << 2, 2 << 2}},
 	{id: 24, isBit: 4, optVals: []int{0, 1 << 2, 2 << 2}},
 	{id: 25, isBit: 2, optBits: []int{0, 1, 3}, self: true},
-	{id: 28, isBit: 6, optVals: []int{0, 1, 2, 1 << 2}},
+	{id: 28, isBit: 6, optVals: []int{0, 1, 2, 1 << 2}, skip: func(m int) bool { return (m>>2)&7 >= 4 }},
 	{id: 29, isBit: 2, optBits: []int{0, 1}, self: true},
 }
 
@@ -414,7 +419,7 @@ func SeqEntryNames() []string {
 func (d *seqDef) firstMasks() []int {
 	var r []int
 	for _, m := range entryByID[d.id].masks() {
-		if m&(1<<uint(d.isBit)) != 0 {
+		if m&(1<<uint(d.isBit)) != 0 && (d.skip == nil || !d.skip(m)) {
 			r = append(r, m)
 		}
 	}
